@@ -1,8 +1,9 @@
 (* Extraction of the regress-html model and oracle for the correspondence driver.
    ExtrOcamlBasic only; no Extract Constant; Z/N/positive/nat stay Coq datatypes. *)
 From Coq Require Import Extraction ExtrOcamlBasic.
-From Robsd Require Import Html.HtmlDefs Html.HtmlSpec.
+From Robsd Require Import Html.HtmlDefs Html.HtmlSpec Html.HtmlRowDefs Html.HtmlPage Html.HtmlParse.
 Extraction Language OCaml.
 Extraction "ht_model.ml" run_html_exec spec_check spec_ok obs_of rate_float rate_int rate_of
   duration_delta classify spec_status extract_log spec_extract has_tag status_str status_failure to_int32 all_statuses
-  inv_le run_le suite_le dir_le render_column view walk_dirs exec_qsorts si_total si_fail spec_rate.
+  inv_le run_le suite_le dir_le render_column view walk_dirs exec_qsorts si_total si_fail spec_rate
+  rows_report page_bytes index_bytes parse_index obs_of_files page_safeb orow_of.
